@@ -15,7 +15,7 @@ RULE = ('Hypothesis draws a client kind (Client under the baton scheduler, Async
         'swallowed or followed by silence; a send drops the connection - plus an application '
         'script: sends both ways, clock steps, disconnect() by client or server at any point '
         'including from inside the connect / message / disconnect handlers, send()/disconnect() '
-        'while not connected, and a reconnect at the end. Oracle: connect() returns (one connect '
+        'while not connected, and a reconnect at the end (on which a send must arrive and a heartbeat be answered); client handlers may take virtual time. Oracle: connect() returns (one connect '
         'event, sid / transport / heartbeat timing as announced) or raises ConnectionError '
         '(disconnected, sid None) within bounded time; per established connection exactly one '
         'disconnect event with an allowed reason; afterwards state disconnected, sid None, no '
